@@ -17,6 +17,8 @@ s1 == <<6>>          s10 == <<6, 5>>     s1p5 == <<6, 4, 10>> sBB == <<19, 19>> 
 sQ == <<18, 2, 19>>  \* a"b
 sBS == <<18, 17, 19>> \* a\b
 sNeg == <<3, 6>>     \* -1
+s25 == <<7, 10>>     \* 25
+NoPlaces(rows) == [of |-> [r \in rows |-> {}], row |-> << >>, names |-> << >>]
 
 NoTags == [k |-> Nil, j |-> Nil, q |-> Nil]
 \* (tag values of type bool / datetime live under key q only: how such values compare under a *string* literal is not documented)
@@ -30,7 +32,11 @@ D1 == [ name |-> "D1",
                   r2 |-> Row(Nil, Nil, Nil, Nil, Nil, Nil, {}, "r1", {}, NoTags),
                   r3 |-> Row(S(sE), N(0), N(0), F2(0), B(FALSE), D(0), {sB}, "r1", {"r3"}, [k |-> Nil, j |-> S(s1), q |-> D(1)]),
                   r4 |-> Row(S(sUAB), N(-1), N(-1), F2(-1), B(TRUE), D(2), {sB, sUA}, "r4", {"r1", "r4"}, [k |-> N(2), j |-> N(0), q |-> B(FALSE)]),
-                  r5 |-> Row(S(s10), N(10), N(10), F2(4), B(FALSE), D(1), {sA}, "r2", {"r2"}, [k |-> F2(3), j |-> S(sA), q |-> D(2)]) ] ]
+                  r5 |-> Row(S(s10), N(10), N(10), F2(4), B(FALSE), D(1), {sA}, "r3", {"r2"}, [k |-> F2(3), j |-> S(sA), q |-> D(2)]) ],
+        \* places: q1 and q3 carry the same s as rows do (a sub-query evaluated against the wrong type would still find a value), q2 has none
+        pl |-> [ of |-> [r1 |-> {"q1", "q2"}, r2 |-> {}, r3 |-> {"q2"}, r4 |-> {"q1", "q3"}, r5 |-> {"q3"}],
+                 row |-> [q1 |-> [s |-> S(sA)], q2 |-> [s |-> Nil], q3 |-> [s |-> S(sB)]],
+                 names |-> [q1 |-> s10, q2 |-> s1, q3 |-> sBB] ] ]      \* (ids no row uses)
 
 \* D2: everything equal / everything distinct mixes for sorting and paging; strings with quote and backslash
 D2 == [ name |-> "D2",
@@ -38,9 +44,12 @@ D2 == [ name |-> "D2",
         row |-> [ r1 |-> Row(S(sQ), N(2), N(2), F2(2), B(TRUE), D(3), {sQ}, "r2", {"r2", "r3", "r4"}, [k |-> S(sQ), j |-> Nil, q |-> B(TRUE)]),
                   r2 |-> Row(S(sBS), N(2), N(1), F2(3), B(TRUE), D(3), {sA, sB, sAB}, "r3", {"r1"}, [k |-> S(sBS), j |-> N(2), q |-> Nil]),
                   r3 |-> Row(S(sA), Nil, N(1), F2(3), Nil, D(0), {sA}, "", {"r5", "r6"}, [k |-> S(sUA), j |-> N(0), q |-> B(FALSE)]),
-                  r4 |-> Row(S(sA), N(1), Nil, Nil, B(FALSE), Nil, {}, "r2", {}, NoTags),
+                  r4 |-> Row(S(sA), N(1), Nil, Nil, B(FALSE), Nil, {}, "r2", {}, [k |-> F2(5000000), j |-> Nil, q |-> Nil]),
                   r5 |-> Row(Nil, N(1), N(0), F2(-2), B(FALSE), D(1), {sAspB}, "r1", {"r5"}, [k |-> N(1), j |-> N(1), q |-> D(0)]),
-                  r6 |-> Row(S(sAspB), N(0), N(0), F2(1), Nil, D(1), {sB}, "r6", {"r1", "r2"}, [k |-> S(s1), j |-> F2(1), q |-> D(3)]) ] ]
+                  r6 |-> Row(S(sAspB), N(0), N(0), F2(5000000), Nil, D(1), {sB}, "r6", {"r1", "r2"}, [k |-> S(s1), j |-> F2(1), q |-> D(3)]) ],
+        pl |-> [ of |-> [r1 |-> {}, r2 |-> {"q1"}, r3 |-> {"q1", "q2"}, r4 |-> {}, r5 |-> {"q2"}, r6 |-> {"q1"}],
+                 row |-> [q1 |-> [s |-> S(sA)], q2 |-> [s |-> S(sQ)]],
+                 names |-> [q1 |-> sBB, q2 |-> sUAB] ] ]
 
 \* D3: rows that agree on every scalar field (only the id tells them apart), for sorts whose every field ties
 Same(boss, peers) == Row(S(sA), N(1), N(1), F2(2), B(TRUE), D(1), {sA}, boss, peers, NoTags)
@@ -48,10 +57,11 @@ Other(boss) == Row(S(sB), N(0), Nil, F2(2), B(TRUE), Nil, {}, boss, {}, NoTags)
 D3 == [ name |-> "D3",
         names |-> [r1 |-> sB, r2 |-> sAB, r3 |-> sA, r4 |-> sUA, r5 |-> s1, r6 |-> <<18, 18>>, r7 |-> sBB],
         row |-> [ r1 |-> Same("", {}), r2 |-> Other("r1"), r3 |-> Same("r1", {"r1"}), r4 |-> Same("r1", {}), r5 |-> Other("r1"),
-                  r6 |-> Same("", {"r2", "r3"}), r7 |-> Other("") ] ]
+                  r6 |-> Same("", {"r2", "r3"}), r7 |-> Other("") ],
+        pl |-> NoPlaces({"r1", "r2", "r3", "r4", "r5", "r6", "r7"}) ]
 
 \* D0: the empty store
-D0 == [name |-> "D0", names |-> << >>, row |-> << >>]
+D0 == [name |-> "D0", names |-> << >>, row |-> << >>, pl |-> NoPlaces({})]
 
 Datasets == IF Mode = "mix" THEN {D1, D0} ELSE IF Mode = "page" THEN {D1, D2, D3} ELSE IF Mode \in {"datasets", "bool"} THEN {D1, D2, D3, D0} ELSE {D1, D2}
 
@@ -79,7 +89,7 @@ StrAtoms == {Cmp(op, l) : op \in Ops6, l \in StrLits}
 NumAtoms == {Cmp(op, l) : op \in Ops6, l \in NumLits}
             \cup {In(neg, ls) : neg \in BOOLEAN, ls \in {{N(1)}, {N(0), N(10), N(-1)}, {F2(3), F2(2)}, {N(2), N(7)}}}
             \cup {Btw(neg, lo, hi) : neg \in BOOLEAN, lo \in {N(0), N(1), F2(-1)}, hi \in {N(1), N(2), F2(3), N(10)}}
-            \cup {Has(neg, FALSE, l) : neg \in BOOLEAN, l \in {S(s1), N(0), S(s1p5)}}
+            \cup {Has(neg, FALSE, l) : neg \in BOOLEAN, l \in {S(s1), N(0), S(s1p5), S(s25)}}
             \cup {IsNull(neg) : neg \in BOOLEAN}
 BoolAtoms == {Cmp(op, l) : op \in {"eq", "ne"}, l \in BoolLits} \cup {IsNull(neg) : neg \in BOOLEAN}
 DateAtoms == {Cmp(op, l) : op \in Ops6, l \in DateLits}
@@ -89,7 +99,7 @@ DateAtoms == {Cmp(op, l) : op \in Ops6, l \in DateLits}
 AnyAtoms == {Cmp(op, l) : op \in Ops6, l \in {S(sA), S(s1), N(1), N(2), F2(3)}}
             \cup {Cmp(op, l) : op \in {"eq", "ne"}, l \in BoolLits} \cup {Cmp(op, D(1)) : op \in {"eq", "lt", "ge"}}
             \cup {In(neg, ls) : neg \in BOOLEAN, ls \in {{S(sA), S(s1)}, {N(1), N(2)}}}
-            \cup {Has(neg, ci, S(sA)) : neg \in BOOLEAN, ci \in BOOLEAN}
+            \cup {Has(neg, ci, S(sA)) : neg \in BOOLEAN, ci \in BOOLEAN} \cup {Has(neg, FALSE, l) : neg \in BOOLEAN, l \in {S(s25), N(2500)}}
             \cup {IsNull(neg) : neg \in BOOLEAN}
 
 BDAtoms == {Cmp(op, l) : op \in {"eq", "ne"}, l \in BoolLits} \cup {Cmp(op, l) : op \in Ops6, l \in {D(1), D(2)}} \cup {IsNull(neg) : neg \in BOOLEAN}
@@ -102,7 +112,8 @@ AtomsFor(sym) == CASE sym[Len(sym)] = "q" -> BDAtoms
 ScalarSyms == {<<"id">>, <<"s">>, <<"n">>, <<"m">>, <<"f">>, <<"b">>, <<"t">>, <<"boss">>, <<"boss", "s">>, <<"boss", "n">>,
                <<"boss", "boss", "s">>, <<"boss", "id">>, <<"tags", "k">>, <<"tags", "j">>, <<"tags", "zz">>, <<"boss", "tags", "k">>, <<"tags", "q">>, <<"tags", "zz", "y">>}
 SetSyms == {<<"roles">>, <<"peers">>, <<"boss", "roles">>, <<"peers", "s">>, <<"peers", "n">>, <<"peers", "roles">>,
-            <<"peers", "boss">>, <<"peers", "boss", "s">>, <<"peers", "tags", "k">>, <<"peers", "peers">>, <<"boss", "peers">>}
+            <<"peers", "boss">>, <<"peers", "boss", "s">>, <<"peers", "tags", "k">>, <<"peers", "peers">>, <<"boss", "peers">>,
+            <<"places">>, <<"places", "s">>, <<"boss", "places">>, <<"boss", "places", "s">>, <<"peers", "places", "s">>, <<"boss", "boss", "places", "id">>}
 
 TRUEF == [k |-> "const", v |-> TRUE]
 Q(p) == [p |-> p, sort |-> << >>, skip |-> NoVal, limit |-> NoVal]
@@ -132,8 +143,15 @@ BoolQ == {Q(p) : p \in B1 \cup B2 \cup B3 \cup {[k |-> "not", e |-> x] : x \in {
 \* sub-queries
 SubPreds == {TRUEF, A1, A2, [k |-> "atom", sym |-> <<"boss">>, a |-> IsNull(TRUE)], [k |-> "anyOf", sym |-> <<"roles">>, a |-> Cmp("eq", S(sB))]}
 SubQs == {[p |-> p, sort |-> << >>, skip |-> sk, limit |-> li] : p \in SubPreds, sk \in {NoVal, 1}, li \in {NoVal, 1}}
+PlacePreds == {TRUEF, A1, [k |-> "atom", sym |-> <<"s">>, a |-> IsNull(FALSE)], [k |-> "atom", sym |-> <<"id">>, a |-> Cmp("ne", S(s1))],
+               [k |-> "not", e |-> [k |-> "atom", sym |-> <<"s">>, a |-> Cmp("eq", S(sB))]]}
+PlaceSubQs == {[p |-> p, sort |-> << >>, skip |-> sk, limit |-> li] : p \in PlacePreds, sk \in {NoVal, 1}, li \in {NoVal, 1}}
 SubQ == {Q([k |-> "countq", sym |-> sym, q |-> q, op |-> op, n |-> n]) : sym \in {<<"peers">>}, q \in SubQs, op \in {"eq", "gt"}, n \in {N(0), N(1), N(2)}}
         \cup {Q([k |-> "isEmptyq", sym |-> sym, q |-> q]) : sym \in {<<"peers">>, <<"boss", "peers">>}, q \in SubQs}
+        \* sub-queries whose elements are of another entity type than the row (and than the first hop of the chain)
+        \cup {Q([k |-> "countq", sym |-> sym, q |-> q, op |-> op, n |-> n]) : sym \in {<<"places">>, <<"boss", "places">>}, q \in PlaceSubQs, op \in {"eq", "gt"}, n \in {N(0), N(1)}}
+        \cup {Q([k |-> "isEmptyq", sym |-> sym, q |-> q]) : sym \in {<<"places">>, <<"boss", "places">>}, q \in PlaceSubQs}
+        \cup {Q([k |-> "not", e |-> [k |-> "isEmptyq", sym |-> sym, q |-> q]]) : sym \in {<<"boss", "places">>}, q \in PlaceSubQs}
 
 \* sorting and paging
 SortSyms == {<<"s">>, <<"n">>, <<"m">>, <<"f">>, <<"b">>, <<"t">>, <<"id">>, <<"boss">>}
